@@ -138,7 +138,9 @@ func riskyStart(t string) bool {
 	return len(t) > 0 && t[0] == '`'
 }
 
-var commentWords = []string{" note", " TODO: fix", "", " x = 1;", " été", "// nested", " }", " \"q", " trailing  "}
+var commentWords = []string{" note", " TODO: fix", "", " x = 1;", " été", "// nested", " }", " \"q", " trailing  ",
+	// comments that tools give a meaning to: to xjs they are comments like any other
+	"# sourceMappingURL=out.js.map", "@ sourceURL=a.js", "! keep", "/ <reference path=\"x\" />", " eslint-disable-next-line", " @ts-ignore", "#region", " prettier-ignore"}
 
 func (e *emitter) comment() string {
 	c := commentWords[e.ch.Choose(len(commentWords))]
